@@ -260,7 +260,7 @@ def run(ctx, rep):
         npub, nslot = run_config(ctx, rep, cfg)
         if cfg is None:
             rep.floor("C14.R2", "public functions analysed", npub, 50)
-            rep.floor("C14.R1", "vtable slot functions analysed", nslot, 25)
+            rep.floor("C14.R1", "vtable slot functions analysed", nslot, 16)
             rep.analysed["public_functions"] = npub
             rep.analysed["slot_functions"] = nslot
         else:
